@@ -538,6 +538,8 @@ NLW2_SOLReadResultCode SOLReader2<SOLHandler>::gsufread(FILE* f) {
       return ReportBadLine(buf);
     if (sufheadcheck(&SR))
       return ReportBadLine(buf);
+    if (SR.h.namelen > (int)sizeof(buf) - 2)   // the name line is read into buf
+      return ReportBadLine(buf);
     if (!fgets(buf, sizeof(buf)-1, f)
         || (buf[SR.h.namelen-1] != '\n'
             && (buf[SR.h.namelen-1] != '\r'
